@@ -33,7 +33,7 @@ m = {
         'enable': 'harness depends on /repo/crates/{core,config} with features=["verif-hooks"]; CLI: cargo build -p ast-grep --release --features verif-hooks --config profile.release.lto=false --target-dir /verif/target/sg',
         'baseline_off_cmd': 'cd /repo && cargo nextest run --workspace --no-fail-fast --tool-config-file pb:/w/lib/nextest.toml --profile pb --test-threads 8 --offline',
         'source_commits': hook_commits,
-        'add_only': True,
+        'add_only': False,
     },
     'engines': [
         {'name': 'vmon', 'path': 'harness/', 'serves_properties': [k for k, v in PROPS.items() if any(e[0] == 'vmon' for e in v['engines'])],
